@@ -204,7 +204,10 @@ fn main() {
                     }
                     out
                 }
-                Some("server") => check_server(c["id"].as_u64().unwrap() as u16, &listed),
+                Some("server") => {
+                    let id = c["id"].as_u64().unwrap() as u16;
+                    check_server_v(id, c["version"].as_u64().map_or(id ^ 0x0303, |v| v as u16), &listed)
+                }
                 _ => machinery_failure(run.prop, "unknown replay kind"),
             };
             outs.push(m);
@@ -355,10 +358,21 @@ fn main() {
         sink.count("constructed (all cipher ids)", if m.is_empty() { "ok" } else { "VIOLATION" });
         report(sink, "constructed", format!("ids {:#06x}..", k << 8), m, json!({"kind":"constructed","random":hexs(&random),"version":0x0303,"ids":ids}));
         // (4) ServerHello constructor / get_cipher for the same ids
-        for id in ids {
+        for &id in &ids {
             let m = check_server(id, &listed);
             sink.evals += 1;
             report(sink, "server", format!("{:#06x}", id), m, json!({"kind":"server","id":id}));
+            for v in GRID_VERSIONS {
+                let m = check_server_v(id, v, &listed);
+                sink.evals += 1;
+                report(sink, "server", format!("{:#06x} v{:#06x}", id, v), m, json!({"kind":"server","id":id,"version":v}));
+            }
+        }
+        // the same id lists in ClientHellos of every version family
+        for v in GRID_VERSIONS {
+            let m = run_constructed(&random, v, None, &ids, None, &listed);
+            sink.evals += 1;
+            report(sink, "constructed", format!("ids {:#06x}.. v{:#06x}", k << 8, v), m, json!({"kind":"constructed","random":hexs(&random),"version":v,"ids":ids}));
         }
     });
     sink.merge(s3);
@@ -368,7 +382,7 @@ fn main() {
     cov.insert("parsed_hellos".into(), json!(parsed));
     cov.insert("leading_random_words".into(), json!(nwords));
     cov.insert("rule".into(), json!(
-        "every ClientHello of the TLS and DTLS catalogues (parsed), constructed hellos with random slices of every length 0..=40 x 5 versions, session ids of 0..=48 / 255 / 256 / 300 bytes and extension blocks up to 70000 bytes (beyond the wire limits: constructors must not edit their arguments), a 40000-entry cipher list, extension blocks that are well-formed extension lists (every known extension alone and in pairs, incl. supported_versions) under 4 versions, leading random words over all single-bit patterns, boundaries and full 2^16 sweeps of the upper and of the lower half-word, cipher lists covering all 65536 ids, ServerHello::new / get_version / get_cipher for all 65536 ids; each trait accessor and helper compared with the structure's own fields (slices by pointer), rand_time / rand_bytes with the big-endian split, cipher_suites / get_ciphers / get_cipher with from_id and with the registry file. Non-trivial: every value"));
+        "every ClientHello of the TLS and DTLS catalogues (parsed), constructed hellos with random slices of every length 0..=40 x 5 versions, session ids of 0..=48 / 255 / 256 / 300 bytes and extension blocks up to 70000 bytes (beyond the wire limits: constructors must not edit their arguments), a 40000-entry cipher list, extension blocks that are well-formed extension lists (every known extension alone and in pairs, incl. supported_versions) under 4 versions, leading random words over all single-bit patterns, boundaries and full 2^16 sweeps of the upper and of the lower half-word, cipher lists covering all 65536 ids, ServerHello::new / get_version / get_cipher for all 65536 ids x 13 versions (and the id lists in ClientHellos of 13 versions); each trait accessor and helper compared with the structure's own fields (slices by pointer), rand_time / rand_bytes with the big-endian split, cipher_suites / get_ciphers / get_cipher with from_id and with the registry file. Non-trivial: every value"));
     let code = run.finish(&sink, cov, vec!["rand_time / rand_bytes are only constrained for randoms of at least 4 bytes (shorter constructed values: no panic)".into()]);
     std::process::exit(code);
 }
@@ -388,12 +402,19 @@ fn check_server_sized(sl: usize, el: usize, pool: &[u8]) -> Vec<String> {
 }
 
 fn check_server(id: u16, listed: &BTreeSet<u16>) -> Vec<String> {
+    check_server_v(id, id ^ 0x0303, listed)
+}
+
+/// the versions every id is crossed with (the accessors do not depend on the version)
+const GRID_VERSIONS: [u16; 12] = [0x0300, 0x0301, 0x0302, 0x0303, 0x0304, 0x7f12, 0xfefd, 0xfeff, 0xfefc, 0x0002, 0x0000, 0xffff];
+
+fn check_server_v(id: u16, version: u16, listed: &BTreeSet<u16>) -> Vec<String> {
     static R: [u8; 32] = [3u8; 32];
     let r = guarded(|| {
         let mut out = Vec::new();
         let comp = (id >> 8) as u8 ^ id as u8;
-        let sh = TlsServerHelloContents::new(id ^ 0x0303, &R, Some(&R[..(id % 33) as usize]), id, comp, Some(&R[..3]));
-        if sh.version.0 != id ^ 0x0303 || sh.get_version().0 != id ^ 0x0303 || sh.cipher.0 != id || sh.compression.0 != comp || !same(sh.random, &R) || !same_opt(sh.session_id, Some(&R[..(id % 33) as usize])) || !same_opt(sh.ext, Some(&R[..3])) {
+        let sh = TlsServerHelloContents::new(version, &R, Some(&R[..(id % 33) as usize]), id, comp, Some(&R[..3]));
+        if sh.version.0 != version || sh.get_version().0 != version || sh.cipher.0 != id || sh.compression.0 != comp || !same(sh.random, &R) || !same_opt(sh.session_id, Some(&R[..(id % 33) as usize])) || !same_opt(sh.ext, Some(&R[..3])) {
             out.push(format!("TlsServerHelloContents::new / get_version do not keep their arguments (id {:#06x})", id));
         }
         let c = sh.get_cipher();
@@ -402,7 +423,7 @@ fn check_server(id: u16, listed: &BTreeSet<u16>) -> Vec<String> {
             Some(s) => s.id.0 == id && listed.contains(&id) && TlsCipherSuite::from_id(id).map_or(false, |x| std::ptr::eq(x, s)),
         };
         if !ok {
-            out.push(format!("get_cipher() for id {:#06x} is {:?}", id, c.map(|c| c.name)));
+            out.push(format!("get_cipher() for id {:#06x} (version {:#06x}) is {:?}", id, version, c.map(|c| c.name)));
         }
         out
     });
